@@ -18,7 +18,7 @@ ROOT = os.path.dirname(os.path.dirname(os.path.abspath(__file__)))
 TRUSTED_BASE = [
     "vlib/jaxcompat.py: harness-side shim restoring the JAX<=0.7 internal API genjax was written against (patches JAX only)",
     "JAX tracing (make_jaxpr) as the symbolic execution of the Python source; primitive semantics as encoded in vlib/symjax.py (differentially validated against the real primitive implementations on every traced program)",
-    "floats modelled as mathematical reals, ints as mathematical integers; transcendental functions uninterpreted + sound rewrites",
+    "floats modelled as mathematical reals, ints as mathematical integers; transcendental functions uninterpreted + sound rewrites; where a group says 'NaN/inf aware' every float is an extended real (NaN, +inf, -inf or finite; signed zeros not modelled)",
     "TensorFlow Probability's documented sampling/log_prob contract for the named distribution objects",
     "z3 5.1 (verdicts), /usr/bin/z3 4.8.12 as second opinion on a sample of queries",
 ]
@@ -342,12 +342,16 @@ class Group:
         for T in self.traces:
             if getattr(T, "no_validate", False):
                 continue
-            e = dict(env or {})
+            # extended-real traces are validated at moderate random values: a solver model may hold magnitudes that
+            # overflow float32 in the real run (inf) while the exact value is finite
+            e = {} if getattr(T, "validate_random_only", False) else dict(env or {})
             args = []
             for sym, v in zip(T.flat_in, T.closed.jaxpr.invars):
                 a = np.empty(sym.shape, dtype=object)
                 for idx in np.ndindex(sym.shape):
                     el = sym[idx]
+                    if isinstance(el, sj.XV):
+                        el = el.v            # extended-real inputs are finite variables
                     if isinstance(el, sj.LogV) or not (z3.is_const(el) and el.decl().kind() == z3.Z3_OP_UNINTERPRETED):
                         # log-domain / derived input: give its free variables values, then evaluate
                         for nm2, var in sj.free_vars([sj.unlog(el) if not isinstance(el, sj.LogV) else el.P]).items():
@@ -366,7 +370,8 @@ class Group:
                 for o, v in zip(s.outs, s.eqn.outvars):
                     a = np.empty(o.shape, dtype=object)
                     for idx in np.ndindex(o.shape):
-                        nm = str(o[idx])
+                        oel = o[idx]
+                        nm = str(oel.v if isinstance(oel, sj.XV) else oel)
                         if nm not in e:
                             e[nm] = _default_val(sj.kind_of(v.aval.dtype), rng)
                         a[idx] = e[nm]
